@@ -288,4 +288,67 @@ theorem verify_window_of_full (env : Env) (cfg : Cfg) (hI : 0 < cfg.interval) (a
   obtain ⟨f', hf'⟩ := addBlock_probe_sim hs2 _ hf
   rw [hlt, hf']
 
+/-- comparing with host blocks only SKIPS checks: what passes with no host block to compare passes with any -/
+theorem loopCheck_skip {env : Env} {cfg : Cfg} {now : Int} (lastHost : List Block) {nl : Ledger} {prev : Option Block}
+    {b : Block} {i : Nat} (h : loopCheck env cfg now [] nl prev b i = .ok ()) :
+    loopCheck env cfg now lastHost nl prev b i = .ok () := by
+  rw [agree_loopCheck_eq] at h ⊢
+  by_cases c : b.prevHash ≠ SL.prevHashOpt env prev
+  · rw [if_pos c] at h; cases h
+  · rw [if_neg c] at h ⊢
+    have e1 : ([] : List Block)[i]? = none := by simp
+    rw [e1] at h
+    simp only [Bool.true_and] at h
+    cases hcond : ((match lastHost[i]? with | none => true | some hb => env.hash b != env.hash hb) && !prev.isNone) with
+    | false => simp
+    | true =>
+      have hprev : (!prev.isNone) = true := by
+        rw [Bool.and_eq_true] at hcond
+        exact hcond.2
+      rw [hprev] at h
+      simpa using h
+
+theorem verifyLoop_skip (env : Env) (cfg : Cfg) (now : Int) (lastHost : List Block) :
+    ∀ (rest : List Block) (nl out : Ledger) (prev : Option Block) (i : Nat),
+      verifyLoop env cfg now [] nl prev rest i = .ok out → verifyLoop env cfg now lastHost nl prev rest i = .ok out := by
+  intro rest
+  induction rest with
+  | nil => intro nl out prev i h; simpa [verifyLoop] using h
+  | cons x xs ih =>
+    intro nl out prev i h
+    rw [verifyLoop_cons] at h ⊢
+    cases hc : loopCheck env cfg now [] nl prev x i with
+    | error e => rw [hc] at h; cases h
+    | ok u =>
+      cases u
+      rw [hc] at h
+      rw [loopCheck_skip lastHost hc]
+      simp only [] at h ⊢
+      cases ha : loopAppend nl x i with
+      | error e => rw [ha] at h; cases h
+      | ok nl1 =>
+        rw [ha] at h
+        simp only [] at h ⊢
+        exact ih nl1 out (some x) (i + 1) h
+
+/-- **a chain acceptable from height 0 to a verifier that checks every block is acceptable from height 0 to every
+    verifier**, whatever its own chain and state (full mode starts from the empty state and reads nothing of the host;
+    its host blocks only make it skip checks) -/
+theorem verify_full_any {env : Env} {cfg : Cfg} {host : Ledger} {nb v : List Block} {now : Int}
+    (host' : Ledger) (lastHost : List Block)
+    (h : verify env cfg host [] nb [] now = .ok v) : verify env cfg host' lastHost nb [] now = .ok v := by
+  rw [SL.verify_eq] at h ⊢
+  simp only [List.isEmpty_nil, Bool.true_and, Bool.not_true, Bool.false_and, Bool.false_eq_true, if_false, if_true,
+    List.getLast?_nil] at h ⊢
+  split at h
+  · cases h
+  · rename_i hlen
+    rw [if_neg hlen]
+    cases hl : verifyLoop env cfg now [] ⟨[], .empty, .empty⟩ none nb 0 with
+    | error e => rw [hl] at h; cases h
+    | ok nl =>
+      rw [hl] at h
+      rw [verifyLoop_skip env cfg now lastHost nb _ nl none 0 hl]
+      exact h
+
 end Ru
